@@ -220,10 +220,17 @@ def ob_dispatch_executes(ctx):
             continue
         n += 1
         zero = []
+        sent = {'s': 0, 'b': 0}
         for m in D.messages(st, res):
+            coins = m['coins'] if m['kind'] == 'bank_send' else m.get('funds', [])
+            for d_, a_ in coins:
+                tok = 's' if d_.id == D.sdenom.id else 'b'
+                sent[tok] = sent[tok] + a_
             if m['kind'] == 'bank_send':
                 for d_, a_ in m['coins']:
                     zero.append(a_ >= 1)
+        ctx.require(st, z3.And(sent['s'] == D.bal_s, sent['b'] == D.bal_b), 'no reward coin is left behind in the dispatcher: everything it holds is sent on by the dispatch step',
+                    'linked:nothing_left_step', D.mv)
         ctx.require(st, z3.And(*zero) if zero else True, 'the update transaction executes: the bank module accepts every transfer of the dispatch step (no zero-coin send)',
                     'linked:zero_coin_revert', D.mv, assume=[D.bal_s + D.bal_b >= 1])
     ctx.need_witness('dispatch Ok path', n > 0)
@@ -246,6 +253,17 @@ def ORACLE(v, scn, out):
                     if int(c['amount']) == 0:
                         return ['DispatchRewards emits a bank send of 0%s to %s: the bank module rejects it and the whole update reverts' % (c['denom'], sm['msg']['bank']['send']['to_address'])]
         return []
+    if key == 'linked:nothing_left_step':
+        if 'ok' not in res:
+            return []
+        bal = {b['denom']: int(b['amount']) for b in scn['querier']['balances']}
+        sent = {}
+        for sm in res['ok']['messages']:
+            m_ = sm['msg']
+            coins = m_['bank']['send']['amount'] if 'bank' in m_ else (m_['wasm']['execute']['funds'] if 'wasm' in m_ else [])
+            for c in coins:
+                sent[c['denom']] = sent.get(c['denom'], 0) + int(c['amount'])
+        return ['dispatcher holds %r but sends on %r' % (bal, sent)] if any(sent.get(d_, 0) != bal.get(d_, 0) for d_ in ('usei', 'uusd')) else []
     if key.endswith('fails'):
         return [] if 'ok' in res else ['step failed: ' + str(res)[:200]]
     if key.startswith('hub_update:') or key.startswith('bond_rewards:'):
